@@ -199,7 +199,7 @@ pub fn run(ctx: &Ctx, replay: Option<&J>) -> CheckResult {
     let golden = frames.len();
     let mut rng = ctx.rng("c04-pool", 0);
     let mut lens: Vec<usize> = vec![0, 1, 2, 3, 4, 5, 6, 7, 8, 9, 10, 12, 15, 16, 17, 18, 31, 32, 33, 63, 64, 65, 127, 128, 255, 256, 511, 512, 1021, 1022, 1023];
-    let extra = ctx.n(12, 200);
+    let extra = ctx.n(200, 3000);
     for _ in 0..extra {
         lens.push(rng.below(1024) as usize);
     }
@@ -209,7 +209,7 @@ pub fn run(ctx: &Ctx, replay: Option<&J>) -> CheckResult {
         frames.push((format!("random-L{}", l), crate::frame::frame_with_reserved(&p, if i % 3 == 0 { rng.below(64) as u8 } else { 0 })));
     }
     let deep = ctx.tier == Tier::Thorough;
-    let pair_budget = ctx.n(1500, 40_000) as usize;
+    let pair_budget = ctx.n(4000, 60_000) as usize;
     let parts: Vec<Acc> = frames
         .par_iter()
         .enumerate()
